@@ -449,7 +449,14 @@ func disasmMain(path string) {
 				fmt.Printf("%5x: decode error %v\n", pc, err)
 				break
 			}
-			fmt.Printf("%4d %5x: %s\n", n, pc, insts.NewInstPrinter(nil).Print(in))
+			extra := ""
+			if in.FormatType == insts.FLAT {
+				extra = fmt.Sprintf("  ; offset %d saddr %v", int32(in.Offset0), in.SAddr.IntValue)
+			}
+			if in.FormatType == insts.SMEM || in.FormatType == insts.DS {
+				extra = fmt.Sprintf("  ; offset0 %d offset1 %d", in.Offset0, in.Offset1)
+			}
+			fmt.Printf("%4d %5x: %s%s\n", n, pc, insts.NewInstPrinter(nil).Print(in), extra)
 			buf = buf[in.ByteSize:]
 			pc += in.ByteSize
 			n++
